@@ -2,6 +2,7 @@ package verifsim
 
 import (
 	"fmt"
+	"math/rand"
 	"os"
 	"path/filepath"
 	"sort"
@@ -11,6 +12,7 @@ import (
 	"time"
 
 	"github.com/sanonone/kektordb/pkg/engine"
+	"github.com/sanonone/kektordb/pkg/verifos"
 )
 
 func init() { props["C14"] = runC14 }
@@ -35,6 +37,62 @@ type c14Image struct {
 }
 
 const c14Index = "wx"
+
+type c14Mid struct {
+	dir string
+	at  string
+}
+
+// secondGeneration recovers a mid-operation crash image, rewrites every key it finds, takes a snapshot, restarts
+// and expects the new values: whatever the dead process left half-done must not be replayed over them.
+func secondGeneration(w *World, md c14Mid) {
+	opts := w.Opts
+	opts.DataDir = md.dir
+	e, err := engine.Open(opts)
+	if err != nil {
+		w.Fail("open_after_crash", "open_error", fmt.Sprintf("image before %s: %v; %s", md.at, err, describeDir(md.dir)), -1)
+		return
+	}
+	settle()
+	keys := e.DB.GetKVStore().Keys()
+	sort.Strings(keys)
+	for _, k := range keys {
+		if err := e.KVSet(k, []byte("g2-"+k)); err != nil {
+			e.Close()
+			settle()
+			return
+		}
+	}
+	if err := e.KVSet("g2-marker", []byte("g2")); err != nil {
+		e.Close()
+		settle()
+		return
+	}
+	serr := e.SaveSnapshot()
+	if cerr := e.Close(); cerr != nil || serr != nil {
+		settle()
+		return
+	}
+	settle()
+	e2, err := engine.Open(opts)
+	if err != nil {
+		w.Fail("open_after_crash", "open_error_second_generation", fmt.Sprintf("image before %s, second generation: %v", md.at, err), -1)
+		return
+	}
+	settle()
+	defer func() { e2.Close(); settle() }()
+	for _, k := range append(keys, "g2-marker") {
+		want := "g2-" + k
+		if k == "g2-marker" {
+			want = "g2"
+		}
+		if v, ok := e2.KVGet(k); !ok || string(v) != want {
+			w.Fail("crash_leftovers_do_not_resurface", "stale_value_after_second_generation", fmt.Sprintf("image before %s recovered; key %s then set to %q, snapshot, restart: reads %q (present %v); %s", md.at, k, want, string(v), ok, describeDir(md.dir)), -1)
+			return
+		}
+	}
+	w.Probe("second_generation_checked")
+}
 
 func c14Ops(w *World, nWriters int) (tasks [][]Op) {
 	r := w.R
@@ -136,6 +194,7 @@ func runC14(w *World, tr *Trace) {
 	var mu sync.Mutex
 	var acks []*ackRec
 	var images []*c14Image
+	var mids []c14Mid
 	issued := map[string]int{} // item -> highest version issued
 	var closeInvoke, closeRet int64 = -1, -1
 	nimg := 0
@@ -304,7 +363,36 @@ func runC14(w *World, tr *Trace) {
 			panic(harnessErr{"create: " + err.Error()})
 		}
 		settle()
+		// crash images in the MIDDLE of multi-step operations (before a rename, a remove, the first write to a fresh file):
+		// they are not judged against the acknowledged versions (nothing was promised at that instant) but recovered and
+		// then used for a second generation - every key is rewritten, a snapshot taken, the engine restarted - which is
+		// where something a dead process left behind (a half-swapped log) comes back
+		midRng := rand.New(rand.NewSource(spec.Seed ^ 0x3d1c))
+		w.installDiskHook()
+		w.evHook = func(ev *verifos.Event) verifos.Action {
+			if len(mids) >= 3 || w.E == nil {
+				return verifos.Action{}
+			}
+			p := 0.0
+			switch ev.Op {
+			case "rename":
+				p = 0.25
+			case "remove", "truncate", "ftruncate":
+				p = 0.05
+			case "write", "openfile", "close":
+				p = 0.004
+			}
+			if p > 0 && midRng.Float64() < p {
+				dir := filepath.Join(w.Scratch, fmt.Sprintf("c14mid%02d", len(mids)+1))
+				if err := copyTree(w.Dir, dir); err == nil {
+					mids = append(mids, c14Mid{dir, ev.Op + " " + filepath.Base(ev.Path)})
+					w.FaultFired("crash_image_mid_operation")
+				}
+			}
+			return verifos.Action{}
+		}
 		sres = w.runScheduled(spec, tasks, advProb)
+		w.evHook = nil
 		if sres.Stall != "" {
 			w.Fail("no_stall", "stall", sres.Stall, -1)
 			return
@@ -382,6 +470,12 @@ func runC14(w *World, tr *Trace) {
 				break
 			}
 			check(img.dir, img.invoke, img.what, false)
+		}
+		for _, md := range mids {
+			if w.Failed() {
+				break
+			}
+			secondGeneration(w, md)
 		}
 		w.Res.SimNS = int64(time.Since(w.Start))
 	})
